@@ -273,7 +273,7 @@ public:
             res_p += (res_p - t) / n;
         }
         if (ldeg != 0) {
-            res_p *= Series::pow(var, ldeg / n, prec);
+            res_p *= Series::pow(var, -ldeg / n, prec);
         }
         if (do_inv)
             return res_p / ctroot;
